@@ -228,18 +228,27 @@ def save_calibrator_state(  # noqa: PLR0913
             data = series_file["data"]  # Get the existing dataset
             previous_shape = data.shape  # E.g., (num_rows, dim2, dim3, ...)
             nb_rows = previous_shape[0]
-            to_append = series_samp[nb_rows:]  # Slicing out only the new part
+            # the rows on disk can be kept only if they are the first rows of the current history:
+            # the folder may hold the checkpoint of a different run
+            can_append = (
+                previous_shape[1:] == series_samp.shape[1:]
+                and nb_rows <= series_samp.shape[0]
+                and np.array_equal(data[:], series_samp[:nb_rows])
+            )
+            if can_append:
+                to_append = series_samp[nb_rows:]  # Slicing out only the new part
 
-            # Resize the first dimension so there's room for the new data
-            new_num_rows = nb_rows + to_append.shape[0]
-            data.resize((new_num_rows,) + previous_shape[1:])
+                # Resize the first dimension so there's room for the new data
+                new_num_rows = nb_rows + to_append.shape[0]
+                data.resize((new_num_rows,) + previous_shape[1:])
 
-            # Write the appended portion
-            data[nb_rows:new_num_rows] = to_append
+                # Write the appended portion
+                data[nb_rows:new_num_rows] = to_append
 
-        return
+        if can_append:
+            return
 
-    # If the file does not exist, create it and store the entire dataset in one shot.
+    # If the file does not exist (or holds other data), store the entire dataset in one shot.
     with h5py.File(series_filepath, mode="w") as series_file:
         # Create a resizable (maxshape=None along axis 0) dataset
         data = series_file.create_dataset(
